@@ -33,11 +33,14 @@ def _alarm(signum, frame):
 _CHECK = None
 
 
-def _worker_run(idx_case):
+def _worker_run(idx_case, guard=True):
     idx, case = idx_case
-    signal.signal(signal.SIGALRM, _alarm)
-    signal.alarm(CASE_TIMEOUT)
-    faulthandler.dump_traceback_later(CASE_TIMEOUT + 30, exit=True)
+    if guard:
+        # never armed in the main process: a forked child would inherit faulthandler's watchdog
+        # state without its thread and dead-lock when re-arming it
+        signal.signal(signal.SIGALRM, _alarm)
+        signal.alarm(CASE_TIMEOUT)
+        faulthandler.dump_traceback_later(CASE_TIMEOUT + 30, exit=True)
     t = time.time()
     try:
         r = _CHECK.run_case(case)
@@ -51,8 +54,9 @@ def _worker_run(idx_case):
 
         forget(e)
     finally:
-        signal.alarm(0)
-        faulthandler.cancel_dump_traceback_later()
+        if guard:
+            signal.alarm(0)
+            faulthandler.cancel_dump_traceback_later()
     r["idx"] = idx
     r["wall"] = time.time() - t
     return r
@@ -64,7 +68,7 @@ def run_cases(check, cases, workers=None):
     workers = workers or WORKERS
     items = list(enumerate(cases))
     if workers <= 1 or len(items) <= 1:
-        return [_worker_run(it) for it in items]
+        return [_worker_run(it, guard=False) for it in items]
     ctx = multiprocessing.get_context("fork")
     out = [None] * len(items)
     with ProcessPoolExecutor(max_workers=min(workers, len(items)), mp_context=ctx) as ex:
@@ -247,6 +251,17 @@ def main(check, argv):
                 known_hits[e["id"]][1] += 1
             else:
                 groups.setdefault(vsig(v), (v.get("repro_case") or c, v))
+    agg_extra = {}
+    if hasattr(check, "aggregate"):
+        extra_v, agg_extra = check.aggregate(results, cases)
+        for v in extra_v:
+            n_viol += 1
+            e = match_known(v, known)
+            if e is not None:
+                known_hits.setdefault(e["id"], [e, 0, v.get("repro_case"), v])
+                known_hits[e["id"]][1] += 1
+            else:
+                groups.setdefault(vsig(v), (v.get("repro_case"), v))
     stats, probes, distinct, nontrivial = {}, {}, set(), set()
     samples = []
     for r in results:
@@ -308,6 +323,7 @@ def main(check, argv):
                         stub=["multiprocess.Pool (SimPool)", "OS file system under /simfs (SimFS)", "sys.stderr/stdout", "tqdm clock", "user model (simulator-owned targets)", "numpy.random global stream (per-run RandomState behind wrappers)"]),
     )
     cov.update(extra)
+    cov.update(agg_extra or {})
     ev = dict(property_id=prop, tier=tier, seed=args.seed, level=check.LEVEL, coverage=cov,
               assumptions=list(getattr(check, "ASSUMPTIONS", [])), wall_s=round(wall, 2), violations=n_viol - sum(n for _, n, _, _ in known_hits.values()))
     bad = validate_evidence(ev)
